@@ -43,6 +43,10 @@ type hwmonChip struct {
 	Name  string          `json:"name"` // content of <dir>/name (chip prefix)
 	Fans  []hwmonFanFeat  `json:"fans"`
 	Temps []hwmonTempFeat `json:"temps"`
+	// chip without any fan or temperature feature (GetChips must skip it):
+	// "empty" = empty directory (no name file), "name" = only the name file,
+	// "labels" = name + *_label / in0_input / power1_* files (a battery or power supply)
+	Bare string `json:"bare,omitempty"`
 }
 type hwmonSensorSel struct {
 	Pattern string `json:"pattern"`
@@ -77,6 +81,8 @@ type hwmonObs struct {
 	PwmMissing    int            `json:"pwm_file_missing,omitempty"` // bound fans whose PwmPath does not exist (observation only)
 	Daemon        string         `json:"daemon,omitempty"`           // RunDaemon on the same input: fatal | crash | other:<..>
 	Platforms     []string       `json:"platforms,omitempty"`
+	NilCtrl       int            `json:"nil_controllers,omitempty"` // nil entries returned by hwmon.GetChips
+	DiscoveryDied bool           `json:"discovery_panicked,omitempty"`
 }
 
 var hwmonCaseNo int
@@ -128,6 +134,33 @@ func hwmonWrite(path, content string) {
 	}
 }
 
+// hwmonReadBound reads the paths every configured entry ended up with from the real registries.
+func hwmonReadBound(in hwmonIn, obsp *hwmonObs, dirs map[string]int, sid, fid func(int) string) {
+	obs := obsp
+	for i := range in.Sensors {
+		p := hwmonPath{Chip: -1, Kind: 0, N: -1}
+		if s, ok := sensors.GetSensor(sid(i)); ok {
+			if hs, ok := s.(*sensors.HwmonSensor); ok {
+				p = hwmonParsePath(hs.Input, dirs)
+			}
+		}
+		obs.Sensors = append(obs.Sensors, p)
+	}
+	for i := range in.Fans {
+		ps := [3]hwmonPath{{-1, 0, -1}, {-1, 0, -1}, {-1, 0, -1}}
+		if f, ok := fans.GetFan(fid(i)); ok {
+			if hf, ok := f.(*fans.HwMonFan); ok && hf.Config.HwMon != nil {
+				h := hf.Config.HwMon
+				ps = [3]hwmonPath{hwmonParsePath(h.RpmInputPath, dirs), hwmonParsePath(h.PwmPath, dirs), hwmonParsePath(h.PwmEnablePath, dirs)}
+				if _, err := os.Stat(h.PwmPath); err != nil {
+					obs.PwmMissing++
+				}
+			}
+		}
+		obs.Fans = append(obs.Fans, ps)
+	}
+}
+
 func hwmonRun(ctx *Ctx, in hwmonIn) (hwmonObs, string, []string) {
 	hwmonCaseNo++
 	root := filepath.Join(ctx.WorkDir, "hw"+itoa(hwmonCaseNo))
@@ -142,7 +175,17 @@ func hwmonRun(ctx *Ctx, in hwmonIn) (hwmonObs, string, []string) {
 		_ = os.MkdirAll(d, 0o755)
 		dirs[d] = ch.Id
 		order = append(order, "hwmon"+itoa(ch.Id))
-		hwmonWrite(filepath.Join(d, "name"), ch.Name+"\n")
+		if ch.Bare != "empty" {
+			hwmonWrite(filepath.Join(d, "name"), ch.Name+"\n")
+		}
+		if ch.Bare == "labels" {
+			for _, fn := range []string{"fan1_label", "temp1_label", "in0_input", "in0_label", "power1_average", "power1_label", "uevent"} {
+				hwmonWrite(filepath.Join(d, fn), "x\n")
+			}
+		}
+		if ch.Bare != "" {
+			continue
+		}
 		for _, f := range ch.Fans {
 			if f.Input {
 				hwmonWrite(filepath.Join(d, "fan"+itoa(f.Ch)+"_input"), "1200\n")
@@ -168,15 +211,26 @@ func hwmonRun(ctx *Ctx, in hwmonIn) (hwmonObs, string, []string) {
 	// the platform string the real GetChips computes per chip (skipped chips: the same formula)
 	platform := map[int]string{}
 	for i, ch := range in.Chips {
-		platform[ch.Id] = fmt.Sprintf("%s-isa-%d%03x", ch.Name, 0, 0x290+i)
+		name := ch.Name
+		if ch.Bare == "empty" {
+			name = "hwmon" + itoa(ch.Id) // no name file: the stand-in falls back to the directory name
+		}
+		platform[ch.Id] = fmt.Sprintf("%s-isa-%d%03x", name, 0, 0x290+i)
 	}
 	present := map[int]bool{} // chips GetChips did not skip
-	for _, c := range hwmon.GetChips() {
-		if id, ok := dirs[c.Path]; ok {
-			platform[id] = c.Platform
-			present[id] = true
+	nilControllers := 0       // nil entries in the controller list (never legitimate)
+	discoveryPanicked, _, _ := hwmonGuarded(func() {
+		for _, c := range hwmon.GetChips() {
+			if c == nil {
+				nilControllers++
+				continue
+			}
+			if id, ok := dirs[c.Path]; ok {
+				platform[id] = c.Platform
+				present[id] = true
+			}
 		}
-	}
+	})
 
 	// oracle tables from the real regexp package
 	var patterns []string
@@ -244,6 +298,8 @@ func hwmonRun(ctx *Ctx, in hwmonIn) (hwmonObs, string, []string) {
 	for _, ch := range in.Chips {
 		obs.Platforms = append(obs.Platforms, platform[ch.Id])
 	}
+	obs.NilCtrl = nilControllers
+	obs.DiscoveryDied = discoveryPanicked
 	mkConfig()
 	var err error
 	panicked, isRt, ptext := hwmonGuarded(func() { _, err = internal.InitializeObjects() })
@@ -287,30 +343,11 @@ func hwmonRun(ctx *Ctx, in hwmonIn) (hwmonObs, string, []string) {
 		}
 	default:
 		obs.Kind = "ok"
-		for i := range in.Sensors {
-			p := hwmonPath{Chip: -1, Kind: 0, N: -1}
-			if s, ok := sensors.GetSensor(sid(i)); ok {
-				if hs, ok := s.(*sensors.HwmonSensor); ok {
-					p = hwmonParsePath(hs.Input, dirs)
-				}
-			}
-			obs.Sensors = append(obs.Sensors, p)
-		}
-		for i := range in.Fans {
-			ps := [3]hwmonPath{{-1, 0, -1}, {-1, 0, -1}, {-1, 0, -1}}
-			if f, ok := fans.GetFan(fid(i)); ok {
-				if hf, ok := f.(*fans.HwMonFan); ok && hf.Config.HwMon != nil {
-					h := hf.Config.HwMon
-					ps = [3]hwmonPath{hwmonParsePath(h.RpmInputPath, dirs), hwmonParsePath(h.PwmPath, dirs), hwmonParsePath(h.PwmEnablePath, dirs)}
-					if _, err := os.Stat(h.PwmPath); err != nil {
-						obs.PwmMissing++
-					}
-				}
-			}
-			obs.Fans = append(obs.Fans, ps)
+		readPanicked, readRt, _ := hwmonGuarded(func() { hwmonReadBound(in, &obs, dirs, sid, fid) })
+		if readPanicked {
+			obs = hwmonObs{Kind: "crash", RuntimeError: readRt, Platforms: obs.Platforms}
 		}
 	}
-
 	// the same start-up through the daemon entry point (failing start-ups only:
 	// a successful one would go on to run the controllers)
 	if in.Daemon && obs.Kind != "ok" {
@@ -332,6 +369,9 @@ func hwmonRun(ctx *Ctx, in hwmonIn) (hwmonObs, string, []string) {
 	var raws []string
 	for _, ch := range in.Chips {
 		var ff, tt []string
+		if ch.Bare != "" { // no feature files were written
+			ch.Fans, ch.Temps = nil, nil
+		}
 		for _, f := range ch.Fans {
 			ff = append(ff, "("+cZ(f.Ch)+", "+cBool(f.Input)+")")
 		}
@@ -382,6 +422,31 @@ func hwmonRun(ctx *Ctx, in hwmonIn) (hwmonObs, string, []string) {
 	}
 	if obs.Kind == "crash" && obs.RuntimeError {
 		tags = append(tags, "runtime-error")
+	}
+	if obs.NilCtrl > 0 {
+		tags = append(tags, "obs:nil-controller-in-GetChips-result")
+	}
+	if obs.DiscoveryDied {
+		tags = append(tags, "obs:GetChips-panicked")
+	}
+	nBare := 0
+	for i, ch := range in.Chips {
+		if ch.Bare != "" || (len(hwmonFansWithInput(ch)) == 0 && hwmonTempsWithInput(ch) == 0) {
+			nBare++
+			switch {
+			case i == 0:
+				tags = append(tags, "empty-chip:first")
+			case i == len(in.Chips)-1:
+				tags = append(tags, "empty-chip:last")
+			default:
+				tags = append(tags, "empty-chip:between")
+			}
+			if ch.Bare != "" {
+				tags = append(tags, "empty-chip:kind="+ch.Bare)
+			} else {
+				tags = append(tags, "empty-chip:kind=features-without-input")
+			}
+		}
 	}
 	if obs.PwmMissing > 0 {
 		tags = append(tags, "obs:bound-pwm-file-missing")
@@ -723,6 +788,35 @@ func init() {
 				stream = "hostile"
 			} else if good {
 				stream = "structured-all-devices-exist"
+			}
+			if i%3 == 0 {
+				// chips with no fan and no temperature input, placed first / last / between
+				bare := hwmonChip{Id: len(in.Chips) + 1, Name: hwmonNames[rng.Intn(len(hwmonNames))],
+					Bare: []string{"empty", "name", "labels"}[rng.Intn(3)]}
+				if len(in.Chips) == 4 {
+					k := rng.Intn(4) // the chip some entries may name loses all its devices
+					bare.Id, bare.Name = in.Chips[k].Id, in.Chips[k].Name
+					in.Chips = append(append([]hwmonChip{}, in.Chips[:k]...), in.Chips[k+1:]...)
+				}
+				others := in.Chips
+				var placements [][]hwmonChip
+				placements = append(placements, append([]hwmonChip{bare}, others...))
+				placements = append(placements, append(append([]hwmonChip{}, others...), bare))
+				if len(others) >= 2 {
+					placements = append(placements, append(append(append([]hwmonChip{}, others[:1]...), bare), others[1:]...))
+				}
+				for pi, chips := range placements {
+					run := in
+					run.Chips = chips
+					if daemonBudget > 0 && pi == 0 {
+						run.Daemon = true
+					}
+					obs := emit(run, stream, "with-empty-chip", "order=empty-"+[]string{"first", "last", "between"}[pi])
+					if obs.Daemon != "" {
+						daemonBudget--
+					}
+				}
+				continue
 			}
 			for o := 0; o < orders; o++ {
 				run := in
